@@ -127,3 +127,17 @@ impl MersenneTwister {
         result
     }
 }
+
+#[cfg(feature = "verif_hooks")]
+impl MersenneTwister {
+    /// Verification hook: build a generator from an explicit state.
+    pub fn verif_from_state(buffer: Vec<u32>, index: usize) -> Self {
+        assert_eq!(buffer.len(), STATE_VECTOR_LENGTH);
+        MersenneTwister { buffer, index }
+    }
+
+    /// Verification hook: the current state.
+    pub fn verif_state(&self) -> (Vec<u32>, usize) {
+        (self.buffer.clone(), self.index)
+    }
+}
